@@ -23,12 +23,13 @@ package main
 import (
 	"bufio"
 	"fmt"
-	"io"
 	"math"
 	"os"
 	"os/exec"
 	"strconv"
 	"strings"
+	"sync"
+	"syscall"
 	"time"
 
 	"github.com/dop251/goja"
@@ -210,22 +211,64 @@ func (e *env) handle(line string) string {
 	return "ERR:unknown-op"
 }
 
-// worker: one result line per input line, flushed at once (the supervisor waits for it).
-func worker() {
+func cpuNow() float64 {
+	var ru syscall.Rusage
+	if err := syscall.Getrusage(syscall.RUSAGE_SELF, &ru); err != nil {
+		return 0
+	}
+	return float64(ru.Utime.Sec+ru.Stime.Sec) + float64(ru.Utime.Usec+ru.Stime.Usec)/1e6
+}
+
+// worker: one result line per input line, flushed at once.  A watchdog inside the worker measures the CPU time
+// (not wall time: a loaded machine must not produce false hangs) this process has burnt since the current
+// conversion started; beyond the limit it prints TIMEOUT for that line and exits — an endless loop inside
+// native Go code cannot be interrupted any other way.  The supervisor then continues with the next line in a
+// fresh worker.
+func worker(limit float64) {
 	e := newEnv()
 	in := bufio.NewScanner(os.Stdin)
 	in.Buffer(make([]byte, 1<<20), 1<<26)
 	out := bufio.NewWriter(os.Stdout)
+	var mu sync.Mutex
+	seq, startCPU := 0, cpuNow()
+	go func() {
+		for {
+			time.Sleep(100 * time.Millisecond)
+			mu.Lock()
+			s0, c0 := seq, startCPU
+			mu.Unlock()
+			if cpuNow()-c0 <= limit {
+				continue
+			}
+			mu.Lock()
+			if seq == s0 {
+				out.WriteString("TIMEOUT\n")
+				out.Flush()
+				os.Exit(3)
+			}
+			mu.Unlock()
+		}
+	}()
+	n := 0
 	for in.Scan() {
 		line := in.Text()
 		res := common.Safe(func() string { return e.handle(line) })
 		if res == "" {
 			res = "<empty>"
 		}
+		mu.Lock()
+		seq++
+		startCPU = cpuNow()
 		out.WriteString(sanitize(res))
 		out.WriteByte('\n')
-		out.Flush()
+		if n++; n%512 == 0 {
+			out.Flush()
+		}
+		mu.Unlock()
 	}
+	mu.Lock()
+	out.Flush()
+	mu.Unlock()
 }
 
 // sanitize keeps the result a single space-free token: bytes outside the printable ASCII range (only produced
@@ -242,7 +285,6 @@ func sanitize(s string) string {
 
 type child struct {
 	cmd *exec.Cmd
-	in  io.WriteCloser
 	out chan string
 }
 
@@ -254,17 +296,15 @@ func spawn(lines []string) *child {
 	if err := cmd.Start(); err != nil {
 		panic(err)
 	}
-	c := &child{cmd: cmd, in: in, out: make(chan string, 256)}
-	go func() { // feeder (pipelined; a killed worker makes the writes fail, which ends the goroutine)
+	c := &child{cmd: cmd, out: make(chan string, 256)}
+	go func() { // feeder (pipelined; a dead worker makes the writes fail, which ends the goroutine)
 		w := bufio.NewWriter(in)
 		for _, l := range lines {
 			if _, err := w.WriteString(l + "\n"); err != nil {
 				return
 			}
-			if err := w.Flush(); err != nil {
-				return
-			}
 		}
+		w.Flush()
 		in.Close()
 	}()
 	go func() {
@@ -278,42 +318,14 @@ func spawn(lines []string) *child {
 	return c
 }
 
-func (c *child) kill() {
-	c.cmd.Process.Kill()
-	c.cmd.Wait()
-}
-
-// cpuSeconds: user+system CPU time consumed so far by process pid (Linux /proc; clock tick = 1/100 s).
-func cpuSeconds(pid int) float64 {
-	data, err := os.ReadFile(fmt.Sprintf("/proc/%d/stat", pid))
-	if err != nil {
-		return 0
-	}
-	str := string(data)
-	if i := strings.LastIndexByte(str, ')'); i >= 0 {
-		str = str[i+1:]
-	}
-	f := strings.Fields(str)
-	if len(f) < 13 {
-		return 0
-	}
-	ut, _ := strconv.ParseFloat(f[11], 64)
-	st, _ := strconv.ParseFloat(f[12], 64)
-	return (ut + st) / 100
-}
-
-// supervisor: the worker processes the lines in a pipeline.  A conversion that burns more than `limit` of CPU
-// time without producing its result (an endless loop inside native Go code cannot be interrupted) is reported
-// as TIMEOUT; the worker is killed and a new one continues with the next line.  CPU time, not wall time, so
-// that a loaded machine does not produce false hangs; 10 minutes of wall time without progress is also a hang.
 func main() {
-	if len(os.Args) > 1 && os.Args[1] == "-worker" {
-		worker()
-		return
-	}
 	limit := 1.5
 	if ms, err := strconv.Atoi(os.Getenv("VERIF_C12_LIMIT_MS")); err == nil && ms > 0 {
 		limit = float64(ms) / 1000
+	}
+	if len(os.Args) > 1 && os.Args[1] == "-worker" {
+		worker(limit)
+		return
 	}
 	var lines []string
 	in := bufio.NewScanner(os.Stdin)
@@ -326,40 +338,22 @@ func main() {
 	idx := 0
 	for idx < len(lines) {
 		c := spawn(lines[idx:])
-		tick := time.NewTicker(200 * time.Millisecond)
-		lastIdx, lastCPU, stalled := idx, cpuSeconds(c.cmd.Process.Pid), 0.0
-		lastProgress := time.Now()
-		alive := true
-		for alive && idx < len(lines) {
-			select {
-			case r, ok := <-c.out:
-				if !ok {
-					// worker died on this line
-					out.WriteString("CRASH\n")
-					idx++
-					alive = false
-					break
-				}
-				out.WriteString(r)
-				out.WriteByte('\n')
-				idx++
-			case <-tick.C:
-				cpu := cpuSeconds(c.cmd.Process.Pid)
-				if idx == lastIdx {
-					stalled += cpu - lastCPU
-				} else {
-					stalled = 0
-					lastProgress = time.Now()
-				}
-				lastIdx, lastCPU = idx, cpu
-				if stalled > limit || time.Since(lastProgress) > 10*time.Minute {
-					out.WriteString("TIMEOUT\n")
-					idx++
-					alive = false
-				}
+		last := ""
+		for r := range c.out {
+			if idx >= len(lines) {
+				break
 			}
+			out.WriteString(r)
+			out.WriteByte('\n')
+			idx++
+			last = r
 		}
-		tick.Stop()
-		c.kill()
+		c.cmd.Process.Kill()
+		c.cmd.Wait()
+		if idx < len(lines) && last != "TIMEOUT" {
+			// the worker died without answering the current line
+			out.WriteString("CRASH\n")
+			idx++
+		}
 	}
 }
